@@ -87,7 +87,7 @@ void bag<Item, Alloc>::rebalance() {
   auto   global_size      = size();
   size_t small_block_size = global_size / m_comm.size();
   size_t large_block_size =
-      global_size / m_comm.size() + ((global_size / m_comm.size()) > 0);
+      global_size / m_comm.size() + ((global_size % m_comm.size()) > 0);
 
   for (size_t i = 0; i < local_size(); i++) {
     size_t idx = prefix_val + i;
